@@ -3,6 +3,7 @@ import Driver.C07
 import Driver.PumpDrv
 import Driver.E2E
 import Driver.PathMap
+import Driver.Robotics
 /-!
 `modeldrv`: one request per line on stdin (`<area> <op> <args…>`), one answer per line on stdout.
 -/
@@ -15,6 +16,7 @@ def dispatch (line : String) : String :=
   | "pump" :: rest => PumpDrv.handle rest
   | "e2e" :: rest => E2E.handle rest
   | "pathmap" :: rest => PathMap.handle rest
+  | "robotics" :: rest => Robotics.handle rest
   | _ => "bad-op"
 
 partial def loop (h : IO.FS.Stream) (out : IO.FS.Stream) : IO Unit := do
